@@ -3,3 +3,5 @@
 package dag
 
 func verifIdle(*Graph) {}
+
+func verifLoop(*Graph) {}
